@@ -84,13 +84,15 @@ def run_with_crashes(make_proc, crash_points, resume_for_wait, transport=None, b
                         # the checkpoint is loaded for the fresh loop (given in the load context) while some other loop is the
                         # thread's current one
                         import asyncio
-                        other = asyncio.new_event_loop()
+                        # (other_loop_current == 'none': no loop at all is current for the thread that loads)
+                        other = None if other_loop_current == 'none' else asyncio.new_event_loop()
                         asyncio.set_event_loop(other)
                         try:
                             proc = bundle.unbundle(plumpy.LoadSaveContext(loop=drv.loop))
                         finally:
                             asyncio.set_event_loop(drv.loop)
-                            other.close()
+                            if other is not None:
+                                other.close()
                     else:
                         proc = bundle.unbundle(plumpy.LoadSaveContext(loop=drv.loop))
                     restores += 1
@@ -98,6 +100,13 @@ def run_with_crashes(make_proc, crash_points, resume_for_wait, transport=None, b
                     if at_checkpoint[0] is not None and now != at_checkpoint[0]:
                         keys = sorted(k for k in now if now[k] != at_checkpoint[0][k])
                         mismatches.append([restores, keys, {k: now[k] for k in keys}, {k: at_checkpoint[0][k] for k in keys}])
+            except Exception as exc:  # noqa: BLE001
+                if snapshot[0] is None:
+                    raise
+                # a checkpoint that was written cannot be loaded: for the judges, not a fault of the harness
+                import traceback
+                return {'inconclusive': 'load-raised', 'load_raised': '%s: %s' % (type(exc).__name__, exc), 'where': traceback.format_exc()[-500:],
+                        'log': log, 'restores': restores}
             finally:
                 programs.CURRENT_REC = None
 
